@@ -523,6 +523,13 @@ func (l *Lexer) readHTML() string {
 
 		out.WriteByte(l.char)
 		l.readChar()
+
+		// both braces of an escaped "{{" are literal text, the
+		// second one must not open embedded code with a third brace
+		if escapedBraces {
+			out.WriteByte(l.char)
+			l.readChar()
+		}
 	}
 
 	return out.String()
